@@ -63,6 +63,10 @@ struct Colour { int64_t v; };
 static int Colour_ShowHex(var self, var out, int pos) { return print_to(out, pos, "#%lx", $I(((struct Colour*)self)->v)); }
 static int Colour_Show(var self, var out, int pos) { return print_to(out, pos, "rgb(%li)", $I(((struct Colour*)self)->v)); }
 var Colour = Cello(Colour, Instance(ShowHex, Colour_ShowHex), Instance(Show, Colour_Show, NULL));
+/* a type whose size (12 bytes) is not a multiple of the pointer size, with a Show instance of its own: containers round its slot */
+struct Tri12 { int32_t a, b, c; };
+static int Tri12_Show(var self, var out, int pos) { struct Tri12* t = self; return print_to(out, pos, "tri(%li/%li)", $I(t->a), $I(t->c)); }
+var Tri12 = Cello(Tri12, Instance(Show, Tri12_Show, NULL));
 /* a value type wider than an Int (24 bytes) with a Show instance: maps whose key and value sizes differ, shown */
 struct Wide24 { int64_t v; int64_t pad[2]; };
 static int Wide24_Show(var self, var out, int pos) { return print_to(out, pos, "w(%li)", $I(((struct Wide24*)self)->v)); }
@@ -145,18 +149,22 @@ int main(int argc, char** argv) {
             a = Int; for (size_t q = 0; q < sizeof ts / sizeof ts[0]; q++) if (!strcmp(c_str(ts[q]), w + 3)) a = ts[q];
           } else if (w[1] == 'N') {                     /* an object whose type has no Show instance */
             a = alloc_raw(Plain); ((struct Plain*)a)->v = strtoll(w + 3, NULL, 10);
+          } else if (w[1] == 'O' || w[1] == 'o') {      /* an Array (O) / a List (o) of Tri12 (see above) */
+            a = w[1] == 'O' ? (var)new_raw(Array, Tri12) : (var)new_raw(List, Tri12);
+            char* p = strchr(w, ',');
+            while (p && p[1]) { int64_t v = strtoll(p + 1, &p, 10); struct Tri12* e = $(Tri12, (int32_t)v, (int32_t)(v * 3), (int32_t)(v * 7 + 1)); push(a, e); if (*p != ',') break; }
           } else if (w[1] == 'X') {                     /* an Array of such objects */
             a = new_raw(Array, Plain);
             char* p = strchr(w, ',');
             while (p && p[1]) { int64_t v = strtoll(p + 1, &p, 10); struct Plain* e = $(Plain, v); push(a, e); if (*p != ',') break; }
           } else a = mkarg(w[1], w + 3);
           args[na++] = a;
-          var t = new_raw(String, $S("")); show_to(a, t, 0);
+          var t = new_raw(String, $S("")); HC_TRY(show_to(a, t, 0)); if (hc_exc[0]) showbad++;      /* (a show that raises is a wrong show, not the end of the run) */
           if (w[1] == 'C') { char want[64]; snprintf(want, sizeof want, "rgb(%ld)", (long)((struct Colour*)a)->v); if (strcmp(want, c_str(t)) != 0) showbad++; }
           parts[np] = strdup(c_str(t)); plen[np] = strlen(c_str(t)); isconv[np] = 1; np++;
           /* a container's text is not taken on trust: it must contain its elements' own show texts, each once, in iteration
              order, joined the way that container kind joins them (built here from foreach + show of every element) */
-          if (w[1] == 'A' || w[1] == 'L' || w[1] == 'T' || w[1] == 'U' || w[1] == 'X' || w[1] == 'R' || w[1] == 'V' || w[1] == 'v' || w[1] == 'M' || w[1] == 'm') {
+          if (w[1] == 'A' || w[1] == 'L' || w[1] == 'T' || w[1] == 'U' || w[1] == 'X' || w[1] == 'O' || w[1] == 'o' || w[1] == 'R' || w[1] == 'V' || w[1] == 'v' || w[1] == 'M' || w[1] == 'm') {
             static char body[1 << 16]; size_t bl = 0; int first = 1; size_t cnt = 0, lim = len(a) + 2;
             int ismap = w[1] == 'T' || w[1] == 'M' || w[1] == 'm';
             const char* open_ = ismap ? "{" : w[1] == 'U' ? "(" : "[";  const char* close_ = ismap ? "}" : w[1] == 'U' ? ")" : "]";
